@@ -43,6 +43,33 @@ Example c28_range_accepted_example :
   parse_time_range 3600 1709208000 1709208000 (S_ "2024-02-29 12:00") [] = Ok (1709204400, 1709208000).
 Proof. split; vm_compute; reflexivity. Qed.
 
+(* the open-ended range (empty `last` = the clock reading n2): accepted iff first <= now, rejected
+   when the start lies in the future *)
+Theorem c28_range_open_end : forall loc n1 n2 a first, first_of loc n1 a = Ok first ->
+  (parse_time_range loc n1 n2 a [] = Ok (first, n2) <-> first <= n2)
+  /\ (n2 < first -> parse_time_range loc n1 n2 a [] = Err).
+Proof. exact range_open_end. Qed.
+Print Assumptions c28_range_open_end.
+Example c28_range_open_end_example :
+  parse_time_range 0 1000 1000 (S_ "4600") [] = Err /\ parse_time_range 0 1000 1000 (S_ "--1h") [] = Err
+  /\ parse_time_range 0 1000 1000 (S_ "1000") [] = Ok (1000, 1000).
+Proof. repeat split; vm_compute; reflexivity. Qed.
+
+(* ParseTimeRangeCollectErrors records "lower bound greater than upper bound" exactly when the values
+   it hands back are reversed (also with an empty `last`), and records nothing iff ParseTimeRange accepts *)
+Theorem c28_collect_interval : forall loc n1 n2 a b f l d,
+  parse_time_range_collect loc n1 n2 a b = (f, l, d) -> (In 3 d <-> l < f).
+Proof. exact collect_interval. Qed.
+Print Assumptions c28_collect_interval.
+Theorem c28_collect_agrees : forall loc n1 n2 a b f l,
+  parse_time_range_collect loc n1 n2 a b = (f, l, []) <-> parse_time_range loc n1 n2 a b = Ok (f, l).
+Proof. exact collect_agrees. Qed.
+Print Assumptions c28_collect_agrees.
+Example c28_collect_example :
+  parse_time_range_collect 0 1000 1000 (S_ "4600") [] = (4600, 1000, [3])
+  /\ parse_time_range_collect 0 1000 1000 (S_ "x") (S_ "y") = (0, 0, [1; 2]).
+Proof. split; vm_compute; reflexivity. Qed.
+
 (* -Xd:Yh:Zm, in general: any two or more d/h/m/s groups joined by ':' denote now minus their sum *)
 Theorem c28_relative_colon : forall loc now gs,
   (2 <= List.length gs)%nat -> Forall (fun g => 0 <= fst g) gs -> total gs < two63 -> 0 <= now < two63 ->
